@@ -31,6 +31,7 @@ type statFile struct {
 type statCase struct {
 	Files      []statFile
 	Paths      []int // argument order; indices into Files (duplicates allowed)
+	Bare       []int // positions in Paths given without the file's label (a file can be named both ways)
 	Table      refproj.Expr
 	Row        refproj.Expr
 	Col        refproj.Expr
@@ -81,9 +82,13 @@ func (c statCase) materialize(dir string) (paths []string, err error) {
 			return nil, err
 		}
 	}
-	for _, pi := range c.Paths {
+	for i, pi := range c.Paths {
 		p := real[pi]
-		if c.Files[pi].Label != "" {
+		bare := false
+		for _, b := range c.Bare {
+			bare = bare || b == i
+		}
+		if c.Files[pi].Label != "" && !bare {
 			p = c.Files[pi].Label + "=" + p
 		}
 		paths = append(paths, p)
@@ -410,7 +415,8 @@ func genStatFile(t *rapid.T, scale float64, constant bool, baseOff int, many, co
 	for b := 0; b < nblocks; b++ {
 		nk := rapid.IntRange(0, 3).Draw(t, "ncfg")
 		if b == 0 {
-			nk = rapid.IntRange(1, 3).Draw(t, "ncfg0")
+			// (sometimes the first results come before any configuration line)
+			nk = rapid.IntRange(0, 3).Draw(t, "ncfg0")
 		}
 		for i := 0; i < nk; i++ {
 			k := rapid.SampledFrom(stCfgKey).Draw(t, "ck")
@@ -462,6 +468,15 @@ func genStatFile(t *rapid.T, scale float64, constant bool, baseOff int, many, co
 					fmt.Fprintf(&sb, " %v %s", val, u)
 				}
 				sb.WriteString("\n")
+			}
+		}
+	}
+	if vcase.OneIn(t, 150, "manyunits") {
+		// more distinct units than the reader's table of shared strings holds (1024)
+		nu := rapid.IntRange(1030, 1100).Draw(t, "nmanyunits")
+		for rep := 0; rep < 2; rep++ {
+			for i := 0; i < nu; i++ {
+				fmt.Fprintf(&sb, "BenchmarkMany 1 %d mu%d\n", 100+i+rep, i)
 			}
 		}
 	}
@@ -534,6 +549,10 @@ func genStatCase(t *rapid.T) statCase {
 	}
 	if vcase.OneIn(t, 6, "duppath") {
 		c.Paths = append(c.Paths, rapid.IntRange(0, nfiles-1).Draw(t, "dup"))
+		if rapid.Bool().Draw(t, "dupbare") {
+			// the same file once under its label and once by its path alone
+			c.Bare = append(c.Bare, len(c.Paths)-1)
+		}
 	}
 	if vcase.OneIn(t, 3, "customcol") {
 		c.Col = genStatExpr(t, []string{".file", "goos", "goarch", "/kind", "/size", "commit", "/gomaxprocs"}, "col", 3)
@@ -546,6 +565,9 @@ func genStatCase(t *rapid.T) statCase {
 	}
 	if vcase.OneIn(t, 3, "customtable") {
 		c.Table = genStatExpr(t, []string{".config", "goos", "pkg", "goarch", "note"}, "table", 2)
+		if vcase.OneIn(t, 6, "emptytable") {
+			c.Table = refproj.Expr{} // -table "": everything in one table per unit
+		}
 	}
 	if vcase.OneIn(t, 3, "ignore") {
 		c.Ignore = genStatExpr(t, []string{"goarch", "note", "commit", "/size", "/gomaxprocs", ".file", "pkg", ".fullname", ".config", ".name"}, "ign", 2)
